@@ -33,6 +33,7 @@ type FuncSpec struct {
 	Inline    bool              // callers inline the body instead of using the contract
 	Trusted   bool              // body is not verified (external / assumed contract)
 	Pure      bool              // callee modifies nothing and the contract is a function of the args
+	MayPanic  bool              // abstract callees may panic inside this function (exceptional paths are explored)
 	Params    []string          // for assumed contracts of functions without source: parameter names
 	Results   []string          // result names
 	Iter      *IterSpec         // canonical loop of a returned iterator
@@ -60,7 +61,14 @@ type PureFunc struct {
 	Text   string
 }
 
+type Guard struct {
+	Type   string
+	Mutex  string
+	Fields map[string]bool
+}
+
 type Contracts struct {
+	Guards map[string]*Guard // struct type name -> fields guarded by a mutex field
 	Funcs map[string]*FuncSpec
 	Pures map[string]*PureFunc
 	Props map[string][]string // property id -> obligation name patterns (glob with *)
@@ -216,7 +224,7 @@ func parseSpecExpr(text string) (ast.Expr, error) {
 
 var clauseKeywords = map[string]bool{"func": true, "pure": true, "requires": true, "ensures": true, "modifies": true,
 	"invariant": true, "assume": true, "prop": true, "inline": true, "trusted": true, "iter": true, "site": true,
-	"ghost": true, "params": true, "results": true, "purefn": true, "opaque": true}
+	"ghost": true, "params": true, "results": true, "purefn": true, "opaque": true, "guarded": true, "maypanic": true}
 
 func (c *Contracts) parseFile(path string) error {
 	data, err := os.ReadFile(path)
@@ -301,6 +309,17 @@ func (c *Contracts) parseFile(path string) error {
 				return fail(err)
 			}
 			c.Pures[name] = &PureFunc{Name: name, Params: params, Body: e, Text: text, Opaque: cl.kw == "opaque"}
+		case "guarded":
+			// guarded <Type> <mutex field> <field> <field> ...
+			f := strings.Fields(cl.rest)
+			if len(f) < 3 {
+				return fail(fmt.Errorf("guarded <Type> <mutex> <fields...>"))
+			}
+			g := &Guard{Type: f[0], Mutex: f[1], Fields: map[string]bool{}}
+			for _, x := range f[2:] {
+				g.Fields[x] = true
+			}
+			c.Guards[f[0]] = g
 		case "prop":
 			// prop C08: pat, pat
 			colon := strings.Index(cl.rest, ":")
@@ -388,6 +407,8 @@ func (c *Contracts) parseFile(path string) error {
 				cur.Trusted = true
 			case "purefn":
 				cur.Pure = true
+			case "maypanic":
+				cur.MayPanic = true
 			case "params":
 				cur.Params = strings.Fields(strings.ReplaceAll(cl.rest, ",", " "))
 			case "results":
@@ -424,7 +445,7 @@ func (c *Contracts) parseFile(path string) error {
 }
 
 func newContracts() *Contracts {
-	return &Contracts{Funcs: map[string]*FuncSpec{}, Pures: map[string]*PureFunc{}, Props: map[string][]string{}}
+	return &Contracts{Funcs: map[string]*FuncSpec{}, Pures: map[string]*PureFunc{}, Props: map[string][]string{}, Guards: map[string]*Guard{}}
 }
 
 func globMatch(pat, s string) bool {
